@@ -519,7 +519,7 @@ fn handle_a2ml(
                     }
                 } else if filebytes[bytepos..].starts_with(b"/end") {
                     done = true;
-                } else {
+                } else if bytepos < datalen {
                     // solitary '/' hanging around? this will definitely be a parse error later on
                     bytepos += 1;
                 }
@@ -531,15 +531,19 @@ fn handle_a2ml(
 
             // trim off trailing whitespace up to and including the last newline - this newline and the
             // following indentation will be written together with /end A2ML
-            while filebytes[bytepos - 1].is_ascii_whitespace()
+            while bytepos > startpos
+                && filebytes[bytepos - 1].is_ascii_whitespace()
                 && filebytes[bytepos - 1] != b'\r'
                 && filebytes[bytepos - 1] != b'\n'
             {
                 bytepos -= 1;
             }
-            if filebytes[bytepos - 1] == b'\r' && filebytes[bytepos - 1] == b'\n' {
+            if bytepos > startpos
+                && filebytes[bytepos - 1] == b'\r'
+                && filebytes[bytepos - 1] == b'\n'
+            {
                 bytepos -= 2;
-            } else if filebytes[bytepos - 1] == b'\n' {
+            } else if bytepos > startpos && filebytes[bytepos - 1] == b'\n' {
                 bytepos -= 1;
             }
         }
